@@ -103,7 +103,7 @@ META["C08"] = M(
 META["C09"] = M(
     shards={"quick": 16, "thorough": 64}, budget={"quick": 50, "thorough": 800},
     floors={"quick": {"evals": 2500, "distinct": 1000}, "thorough": {"evals": 60000, "distinct": 25000}},
-    required=["action", "sqrt-twice-is-A", "pow-1-is-inverse", "integer-power-is-repeated-product"],
+    required=["action", "sqrt-twice-is-A", "pow-1-is-inverse", "integer-power-is-repeated-product", "zero-column-maps-to-zero"],
     rule="operators with controlled spectrum (Hermitian positive definite declared PSD, singular PSD for exp, general with "
          "eigenvalues in the open right half plane and cond(V) <= 3, complex Hermitian) as leaves and under every structural "
          "rule (Diagonal, BlockDiag with multiplicities, Identity, ScalarMul, Transpose, Adjoint, KronSum for exp, Kronecker "
